@@ -31,6 +31,7 @@ from sa.core import rule, AnalysisError
 from sa.pyindex import get_module, dotted, src, all_py_files, walk_no_nested
 from sa import flow
 from rules._pytd_schema import get_schema
+from rules.provenance import ReachingDefs, strip_iter_wrappers
 
 _VISIT = re.compile(r"^(Visit|Enter|Leave)([A-Z]\w*)$")
 
@@ -95,7 +96,8 @@ def _ann_type(schema, ann):
   last = parts[-1]
   try:
     if last in schema.classes:
-      return _T({last})
+      cl = {c for c in [last] + schema.subclasses(last) if not schema.is_abstract(c)}
+      return _T(cl) if cl else None
     if last in schema.aliases:
       nodes, _ = schema.expand(schema.aliases[last])
       return _T(nodes) if nodes else None
@@ -119,9 +121,14 @@ def _members(schema, cname):
   return out
 
 
+class _Unknown(Exception):
+  """A guard narrows the receiver in a way that is not modelled."""
+
+
 class _Typer:
   def __init__(self, schema, mod):
     self.schema, self.mod = schema, mod
+    self._rds = {}
 
   def _fn_of(self, node):
     return self.mod.enclosing_function(node)
@@ -141,6 +148,7 @@ class _Typer:
     if m and isinstance(par, ast.ClassDef) and idx == 1 and m.group(2) in self.schema.classes:
       return _T({m.group(2)})
     # a nested function: join over its call sites in the enclosing function
+    par = self.mod.enclosing_function(fn)
     if isinstance(par, (ast.FunctionDef, ast.AsyncFunctionDef)) and not fn.decorator_list:
       calls = [c for c in ast.walk(par) if isinstance(c, ast.Call)
                and isinstance(c.func, ast.Name) and c.func.id == fn.name]
@@ -160,52 +168,40 @@ class _Typer:
       return _T(cl, seq)
     return None
 
+  def _rd(self, fn):
+    if fn not in self._rds:
+      try:
+        self._rds[fn] = ReachingDefs(self.mod, fn)
+      except AnalysisError:
+        self._rds[fn] = None
+    return self._rds[fn]
+
   def _binding(self, name_node, depth=0):
-    """Type of a Name from how it is bound in its function (None if unclear)."""
+    """Type of a Name: the join over the definitions that reach this use."""
     fn = self._fn_of(name_node)
-    if fn is None:
+    if fn is None or isinstance(fn, ast.Lambda):
       return None
-    name = name_node.id
-    binds = []
-    for n in walk_no_nested(fn):
-      if isinstance(n, ast.Assign):
-        for t in n.targets:
-          for x in ast.walk(t):
-            if isinstance(x, ast.Name) and x.id == name:
-              binds.append(("assign", n, t))
-      elif isinstance(n, (ast.AugAssign, ast.AnnAssign)) and isinstance(n.target, ast.Name) \
-          and n.target.id == name:
-        binds.append(("other", n, None))
-      elif isinstance(n, (ast.For, ast.AsyncFor)):
-        for x in ast.walk(n.target):
-          if isinstance(x, ast.Name) and x.id == name:
-            binds.append(("for", n, n.target))
-      elif isinstance(n, ast.comprehension):
-        for x in ast.walk(n.target):
-          if isinstance(x, ast.Name) and x.id == name:
-            binds.append(("comp", n, n.target))
-      elif isinstance(n, (ast.With, ast.AsyncWith)):
-        for it in n.items:
-          if it.optional_vars is not None and any(
-              isinstance(x, ast.Name) and x.id == name for x in ast.walk(it.optional_vars)):
-            binds.append(("other", n, None))
-      elif isinstance(n, ast.NamedExpr) and n.target.id == name:
-        binds.append(("walrus", n, n.target))
-      elif isinstance(n, ast.ExceptHandler) and n.name == name:
-        binds.append(("other", n, None))
-    is_param = any(a.arg == name for a in fn.args.posonlyargs + fn.args.args + fn.args.kwonlyargs)
-    if is_param and not binds:
-      return self._param_type(fn, name, depth)
-    if is_param or not binds:
+    rd = self._rd(fn)
+    if rd is None:
+      return None
+    try:
+      defs = rd.defs_of(name_node)
+    except AnalysisError:
+      return None
+    if not defs:
       return None
     cl, seq = set(), None
-    for kind, n, tgt in binds:
-      if kind == "assign" and isinstance(tgt, ast.Name):
-        t = self.type_of(n.value, depth + 1)
-      elif kind == "walrus":
-        t = self.type_of(n.value, depth + 1)
-      elif kind in ("for", "comp") and isinstance(tgt, ast.Name):
-        it = self.type_of(n.iter, depth + 1)
+    for d in defs:
+      if d.kind == "param":
+        t = self._param_type(fn, d.name, depth)
+      elif d.kind in ("assign", "walrus") and not d.path:
+        if isinstance(d.value, ast.Name) and depth < 12:
+          cl_ = self.narrowed_at(d.value, d.value, depth + 1)
+          t = _T(cl_) if cl_ is not None else None
+        else:
+          t = self.type_of(d.value, depth + 1)
+      elif d.kind in ("for", "comp") and not d.path:
+        it = self.type_of(strip_iter_wrappers(d.value), depth + 1)
         t = _T(it.classes) if it is not None and it.seq else None
       else:
         t = None
@@ -216,7 +212,7 @@ class _Typer:
     return _T(cl, seq)
 
   def type_of(self, e, depth=0):
-    if depth > 6:
+    if depth > 16:
       return None
     if isinstance(e, ast.Name):
       return self._binding(e, depth)
@@ -256,6 +252,12 @@ class _Typer:
     while isinstance(test, ast.UnaryOp) and isinstance(test.op, ast.Not):
       test, pol = test.operand, not pol
     if isinstance(test, ast.BoolOp):
+      if (isinstance(test.op, ast.Or) and pol) or (isinstance(test.op, ast.And) and not pol):
+        # a disjunction narrows to the union of what its arms narrow to
+        keeps = [self._isinstance(v, pol, name)[0] for v in test.values]
+        if any(k is None for k in keeps):
+          return None, set()
+        return set().union(*keeps), set()
       if (isinstance(test.op, ast.And) and pol) or (isinstance(test.op, ast.Or) and not pol):
         keep, drop = None, set()
         for v in test.values:
@@ -265,6 +267,22 @@ class _Typer:
           drop |= d
         return keep, drop
       return None, set()
+    # `type(x) is C` / `type(x) == C` / `x.__class__ is C`
+    if isinstance(test, ast.Compare) and len(test.ops) == 1 and \
+        isinstance(test.ops[0], (ast.Is, ast.Eq, ast.IsNot, ast.NotEq)):
+      lhs = test.left
+      subject = None
+      if isinstance(lhs, ast.Call) and dotted(lhs.func) == "type" and len(lhs.args) == 1 \
+          and isinstance(lhs.args[0], ast.Name):
+        subject = lhs.args[0].id
+      elif isinstance(lhs, ast.Attribute) and lhs.attr == "__class__" and isinstance(lhs.value, ast.Name):
+        subject = lhs.value.id
+      if subject == name:
+        t = _ann_type(self.schema, test.comparators[0])
+        if t is None or t.seq:
+          raise _Unknown()
+        same = isinstance(test.ops[0], (ast.Is, ast.Eq)) == pol
+        return (set(t.classes), set()) if same else (None, set())
     if isinstance(test, ast.Call) and dotted(test.func) == "isinstance" and len(test.args) == 2 \
         and isinstance(test.args[0], ast.Name) and test.args[0].id == name:
       spec = test.args[1]
@@ -273,10 +291,15 @@ class _Typer:
       for x in elts:
         t = _ann_type(self.schema, x)
         if t is None or t.seq:
-          return None, set()
+          raise _Unknown()
         for c in t.classes:
           cl |= {c} | set(self.schema.subclasses(c))
       return (cl, set()) if pol else (None, cl)
+    # any other test that hands the receiver itself to a call may narrow it in
+    # a way this rule does not model: the call site is then not judged
+    for c in ast.walk(test):
+      if isinstance(c, ast.Call) and any(isinstance(a, ast.Name) and a.id == name for a in c.args):
+        raise _Unknown()
     return None, set()
 
   def _dominating_attr_reads(self, stmt, name):
@@ -326,15 +349,26 @@ class _Typer:
     return out
 
   def narrowed(self, call):
-    recv = call.func.value
-    t = self.type_of(recv)
+    return self.narrowed_at(call.func.value, call)
+
+  def narrowed_at(self, recv, call, depth=0):
+    """Classes `recv` can have where `call` (any node) is evaluated; None = not judged."""
+    t = self.type_of(recv, depth)
     if t is None or t.seq:
       return None
     cl = set(t.classes)
     if isinstance(recv, ast.Name):
       stmt = self.mod.enclosing_stmt(call)
+      fn = self._fn_of(call)
+      stores = [x.lineno for x in ast.walk(fn) if isinstance(x, ast.Name) and x.id == recv.id
+                and isinstance(x.ctx, ast.Store)] if fn is not None else []
       for test, pol in flow.guards(self.mod.parent, stmt):
-        keep, drop = self._isinstance(test, pol, recv.id)
+        if any(test.lineno <= ln <= call.lineno for ln in stores):
+          continue      # the name was re-bound after the test: the test is stale
+        try:
+          keep, drop = self._isinstance(test, pol, recv.id)
+        except _Unknown:
+          return None
         if keep is not None:
           cl &= keep
         cl -= drop
@@ -397,7 +431,41 @@ def r15_25(ctx):
 
 OUT = "pytype/output.py"
 
-_FIXED = ("            if \".\" in full_name:\n"
-          "              if isinstance(self_type, pytd.GenericType):\n")
+_LEAF = ("  if isinstance(t, (pytd.NamedType, pytd.ClassType, pytd.LateType)):\n"
+         "    return t.Replace(name=name)\n"
+         "  return t\n")
 
-VARIANTS = []
+VARIANTS = [
+    {"name": "revert-D59-replace-name-on-any-self-type", "rule": "R15.25", "file": OUT,
+     "expect": "fire",
+     "old": "              new_self_type = _replace_class_name(self_type, v.name)\n",
+     "new": "              new_self_type = self_type.Replace(name=v.name)\n"},
+    {"name": "leaf-arm-admits-a-union", "rule": "R15.25", "file": OUT, "expect": "fire",
+     "old": "  if isinstance(t, (pytd.NamedType, pytd.ClassType, pytd.LateType)):\n",
+     "new": "  if isinstance(t, (pytd.NamedType, pytd.ClassType, pytd.UnionType)):\n"},
+    {"name": "generic-arm-renames-the-generic-itself", "rule": "R15.25", "file": OUT,
+     "expect": "fire",
+     "old": "    return t.Replace(base_type=_replace_class_name(t.base_type, name))\n",
+     "new": "    return t.Replace(name=name)\n"},
+    {"name": "leaf-arm-unguarded", "rule": "R15.25", "file": OUT, "expect": "fire",
+     "old": _LEAF, "new": "  return t.Replace(name=name)\n"},
+    {"name": "twin-leaf-arm-as-negated-guard", "rule": "R15.25", "file": OUT,
+     "expect": "silent", "old": _LEAF,
+     "new": ("  if not isinstance(t, (pytd.NamedType, pytd.ClassType, pytd.LateType)):\n"
+             "    return t\n"
+             "  return t.Replace(name=name)\n")},
+    {"name": "twin-leaf-arm-asserted", "rule": "R15.25", "file": OUT, "expect": "silent",
+     "old": _LEAF,
+     "new": ("  assert isinstance(t, (pytd.NamedType, pytd.ClassType, pytd.LateType))\n"
+             "  return t.Replace(name=name)\n")},
+    {"name": "twin-leaf-arm-exact-class-tests", "rule": "R15.25", "file": OUT,
+     "expect": "silent", "old": _LEAF,
+     "new": ("  if type(t) is pytd.NamedType or isinstance(t, (pytd.ClassType, pytd.LateType)):\n"
+             "    named = t\n"
+             "    return named.Replace(name=name)\n"
+             "  return t\n")},
+    {"name": "visitor-replaces-a-field-of-another-class", "rule": "R15.25",
+     "file": "pytype/pytd/visitors.py", "expect": "fire",
+     "old": "  def VisitParameter(self, p):\n    return p.Replace(mutated_type=None)\n",
+     "new": "  def VisitParameter(self, p):\n    return p.Replace(mutated=None)\n"},
+]
